@@ -302,8 +302,12 @@ func (s *sided) fieldCoverage(sides string) []sideIssue {
 		if d.Choice < len(s.rs.Run.Arities) {
 			n = s.rs.Run.Arities[d.Choice]
 		}
+		blank := blankFirstField(s.rs.Run)
 		for i := 0; i < n; i++ {
 			idx := fmt.Sprint(i)
+			if i == 0 && (blank[org] || blank[tieRe.ReplaceAllString(org, "[*]")]) {
+				continue // a blank field cannot be referred to; == ignores it too
+			}
 			var fh *fieldHole
 			for k := range holes {
 				if holes[k].idx == idx {
@@ -319,6 +323,20 @@ func (s *sided) fieldCoverage(sides string) []sideIssue {
 					out = append(out, sideIssue{s.fn, fmt.Sprintf("field #%s (%s) of the struct %s does not take part on side %s", idx, id, shortSym(org), map[string]string{"A": s.A, "B": s.B}[want]), "field-missing", ""})
 				}
 			}
+		}
+	}
+	return out
+}
+
+// blankFirstField: the structs (by origin, raw and tied form) whose first field this run chose to be blank (`_ T`).
+func blankFirstField(r *Run) map[string]bool {
+	out := map[string]bool{}
+	for _, d := range r.Decisions {
+		if strings.HasPrefix(d.Sym, "NMF:") && d.Choice == 1 {
+			o := strings.TrimSuffix(strings.TrimPrefix(d.Sym, "NMF:"), ":named|blank")
+			o = strings.TrimSuffix(strings.TrimSuffix(o, "[0]"), "[*]")
+			out[o] = true
+			out[tieRe.ReplaceAllString(o, "[*]")] = true
 		}
 	}
 	return out
